@@ -45,4 +45,110 @@ def exec : List Stmt → Store → List (List Val) → Store × List (List Val)
     | .r => exec rest s (env ++ [s st.eff.file])
     | .rm => exec rest (upd s st.eff.file []) env
 
+/-! ### every execution of the stage: conditional open modes and loops
+
+`generate_equations` appends to `orig_trees_<n>.txt`, … inside its loop over tree topologies.  Whether those appends start from
+an empty file depends on which truncating open is executed before them ON THE PATH TAKEN: an open whose mode is chosen at run
+time (`'w' if i == 0 else 'a'`) truncates only when its condition holds, and a loop body runs once per visited index — possibly
+never, possibly without ever visiting index 0.  The structured summary keeps that information. -/
+
+/-- when does an open perform its first-listed mode -/
+inductive Cond where
+  | always            -- literal mode
+  | firstIteration    -- `X if v == 0 else Y` on the variable of the innermost enclosing loop: `X` exactly when the index is 0
+  | conditional       -- any other run-time choice between two modes
+  deriving Repr, DecidableEq
+
+/-- an effect whose access kind may be chosen at run time: `eff.acc` when the condition holds, `alt` otherwise -/
+structure GEff where
+  eff : Eff
+  cond : Cond
+  alt : Acc
+  deriving Repr, DecidableEq
+
+/-- straight-line code, or the body of a loop over a run-time collection.  `skips = false`: the loop visits the indices
+0, 1, 2, … in order (`for v in range(e)`); `skips = true`: any index may be missing (`for v in <array>`, `while`). -/
+inductive Block where
+  | straight (ops : List GEff)
+  | loop (skips : Bool) (ops : List GEff)
+  deriving Repr, DecidableEq
+
+abbrev Prog := List Block
+
+/-- the choices of one pass over a list of operations: is the loop index 0 (`first`), and the outcome of every `conditional`
+test in order (`picks`; a missing entry counts as `true`) -/
+structure IterChoice where
+  first : Bool
+  picks : List Bool
+  deriving Repr, DecidableEq
+
+def GEff.resolve (first pick : Bool) (g : GEff) : Eff :=
+  match g.cond with
+  | .always => g.eff
+  | .firstIteration => if first then g.eff else { g.eff with acc := g.alt }
+  | .conditional => if pick then g.eff else { g.eff with acc := g.alt }
+
+/-- one pass over the operations.  Outside a loop there is no index: `firstIteration` is then an ordinary run-time choice and
+the caller passes it through `picks` as well (see `traceBlock`). -/
+def resolveOps (first : Bool) : List Bool → List GEff → List Eff
+  | _, [] => []
+  | [], g :: rest => g.resolve first true :: resolveOps first [] rest
+  | p :: ps, g :: rest => g.resolve first p :: resolveOps first ps rest
+
+/-- the iterations of a loop.  Without skipping, the first executed iteration has index 0 and no later one has; with skipping
+each iteration says itself whether its index is 0 (none of them may). -/
+def traceLoop (skips : Bool) (ops : List GEff) : Bool → List IterChoice → List Eff
+  | _, [] => []
+  | head, it :: rest => resolveOps (if skips then it.first else head) it.picks ops ++ traceLoop skips ops false rest
+
+/-- a straight block is passed once (the head of the choice list, default choices if there is none; its `first` flag stands for
+the outcome of a stray `firstIteration` test); a loop block once per element of the choice list -/
+def traceBlock : Block → List IterChoice → List Eff
+  | .straight ops, [] => resolveOps true [] ops
+  | .straight ops, it :: _ => resolveOps it.first it.picks ops
+  | .loop skips ops, its => traceLoop skips ops true its
+
+/-- an execution of the stage: one choice list per block (missing lists are empty: loops run zero times) -/
+def trace : Prog → List (List IterChoice) → List Eff
+  | [], _ => []
+  | b :: rest, [] => traceBlock b [] ++ trace rest []
+  | b :: rest, r :: rs => traceBlock b r ++ trace rest rs
+
+def Acc.isWrite : Acc → Bool
+  | .w | .rm => true
+  | .a | .r => false
+
+/-- the least any resolution of the operation guarantees: a truncation only if every possible mode truncates.
+`first = some b`: the `firstIteration` test is known to be `b`; `none`: not known. -/
+def GEff.weak (first : Option Bool) (g : GEff) : Eff :=
+  let both := if g.eff.acc.isWrite then (if g.alt.isWrite then g.eff else { g.eff with acc := g.alt }) else g.eff
+  match g.cond, first with
+  | .always, _ => g.eff
+  | .firstIteration, some true => g.eff
+  | .firstIteration, some false => { g.eff with acc := g.alt }
+  | .firstIteration, none => both
+  | .conditional, _ => both
+
+def writes : List Eff → List String
+  | [] => []
+  | e :: rest => if e.acc.isWrite then e.file :: writes rest else writes rest
+
+/-- truncation dominates every read/append of the block on every path through it -/
+def safeBlock (fresh : List String) : Block → Bool
+  | .straight ops => safe fresh (ops.map (GEff.weak none))
+  | .loop true ops => safe fresh (ops.map (GEff.weak none))
+  | .loop false ops =>
+      safe fresh (ops.map (GEff.weak (some true))) &&
+      safe (writes (ops.map (GEff.weak (some true))) ++ fresh) (ops.map (GEff.weak (some false)))
+
+/-- what is certainly (over)written once the block is behind us: nothing for a loop (it may not run at all) -/
+def freshAfter (fresh : List String) : Block → List String
+  | .straight ops => writes (ops.map (GEff.weak none)) ++ fresh
+  | .loop _ _ => fresh
+
+/-- `safe` on EVERY execution (decidable on the summary; soundness: `ESR.C16.truncation_dominates_every_execution`) -/
+def safeAll : List String → Prog → Bool
+  | _, [] => true
+  | fresh, b :: rest => safeBlock fresh b && safeAll (freshAfter fresh b) rest
+
 end ESR.Effects
